@@ -22,7 +22,7 @@
 From Coq Require Import ZArith List Bool.
 From AK Require Import Common.Sx Common.Err C10.Sgr C10.SgrLemmas C10.Base gen.C10_Consts C10.Model
   C10.Lemmas C10.LemmasInv C10.LemmasRun C10.LemmasPure C10.LemmasTop C10.LemmasSub C10.LemmasWit
-  C10.Layout C10.LemmasLayout.
+  C10.Layout C10.LemmasLayout C10.LemmasHandle.
 Import ListNotations.
 Open Scope Z_scope.
 
@@ -391,3 +391,68 @@ Proof.
   - split; [vm_compute; reflexivity|]. split; vm_compute; reflexivity.
 Qed.
 Print Assumptions pp_layout_thresholds.
+
+(* ---- lazy results: created first, consumed later, line by line, interleaved ---- *)
+(* histories may contain OMake (r = obj.ch_text(...): the palette is selected and held),
+   ONext (one step of a generator over r: the sub-palettes first requested and the
+   line yielded) and OWholeH (str(r) / a full iteration); reach, caches_coherent and
+   the theorems above hold for such histories too (op_ok covers the new operations) *)
+Theorem handle_created : forall fts w h K copt nc pa ids w' outs,
+  reach fts w -> pa <> PSynced -> step eko fts w (OMake h K copt nc pa ids) = Ok (w', outs) ->
+  exists cp, zfind h (w_hcmds w') = Some cp /\ outs = [] /\
+    (nc = true -> In (K, cp) (w_slots w')) /\
+    (nc = false -> pa = PNone -> p_colors (pal_of w' cp) = top_colors (conf_in_force w copt) K).
+Proof. intros fts w h K copt nc pa ids w' outs H. exact (make_handle fts _ _ _ _ _ _ _ _ _ (inv_reachable fts w H)). Qed.
+Print Assumptions handle_created.
+
+(* what one step of a generator / a whole consumption prints, in ANY reachable world
+   (i.e. whatever was created, consumed or rendered since the result was created):
+   objects printed through one palette -- a formula of the line and of the colours
+   of the palette the handle holds, nothing else *)
+Theorem handle_closed_forms : forall fts w h cp o ids,
+  reach fts w -> zfind h (w_hcmds w) = Some cp -> obj_ok o -> simple_obj o ->
+  (forall w' outs, step eko fts w (ONext h o ids) = Ok (w', outs) ->
+     outs = [text_lines (pure_lines fts (p_colors (pal_of w cp)) (fun _ => []) (o_lines o))]) /\
+  (forall mode w' outs, step eko fts w (OWholeH h o mode ids) = Ok (w', outs) ->
+     outs = texts_of mode (pure_lines fts (p_colors (pal_of w cp)) (fun _ => []) (o_lines o))).
+Proof.
+  intros fts w h cp o ids H Eh Hok Hs. pose proof (inv_reachable fts w H) as Hi. split.
+  - intros w' outs E. exact (next_simple fts _ _ _ _ _ _ _ Hi Eh Hok Hs E).
+  - intros mode w' outs E. exact (whole_simple fts _ _ _ _ _ _ _ _ Hi Eh Hok Hs E).
+Qed.
+Print Assumptions handle_closed_forms.
+
+(* a no_color result prints the plain text of every line, and of the whole, whatever
+   guarded operations (other results created and consumed -- of the same object, in
+   colour --, renderings, registrations, drops) happen between its creation and its
+   consumption, for every object (tables with enum cells and sub-palettes included) *)
+Theorem interleaved_no_color : forall fts w h K copt pa ids w1 o1 ops w2 o2 obj ids',
+  reach fts w -> pa <> PSynced ->
+  step eko fts w (OMake h K copt true pa ids) = Ok (w1, o1) ->
+  Forall op_ok ops -> Forall (keeps h) ops -> run_ops eko fts w1 ops = Ok (w2, o2) ->
+  obj_ok obj ->
+  (forall w3 outs, step eko fts w2 (ONext h obj ids') = Ok (w3, outs) -> outs = [text_lines (plain_lines fts (o_lines obj))]) /\
+  (forall mode w3 outs, step eko fts w2 (OWholeH h obj mode ids') = Ok (w3, outs) -> outs = texts_of mode (plain_lines fts (o_lines obj))).
+Proof.
+  intros fts w h K copt pa ids w1 o1 ops w2 o2 obj ids' H.
+  exact (interleaved_no_color_l fts w h K copt pa ids w1 o1 ops w2 o2 obj ids' (inv_reachable fts w H)).
+Qed.
+Print Assumptions interleaved_no_color.
+
+(* the hypotheses are satisfiable: a coloured and a no_color result of one object, consumed
+   alternately, with a whole consumption of the no_color one in between *)
+Example interleave_example :
+  let l1 := mkObj pp_cls [] [[IChunk None acc_number [55]]] in
+  let l2 := mkObj pp_cls [] [[IChunk None acc_keyword [84]]] in
+  let both := mkObj pp_cls [] [[IChunk None acc_number [55]]; [IChunk None acc_keyword [84]]] in
+  let ops := [ONext 1 l1 []; ONext 2 l1 []; OWholeH 2 both 0 []; ONext 1 l2 []; ONext 2 l2 []] in
+  Forall op_ok ops /\ Forall (keeps 2) (OMake 1 pp_cls (Some 0) false PNone [1] :: ops) /\
+  exists w outs,
+    run_ops eko [] w0 (ONewConf 0 false [] :: OMake 1 pp_cls (Some 0) false PNone [1] :: OMake 2 pp_cls (Some 0) true PNone [2] :: ops) = Ok (w, outs) /\
+    outs = [[]; []; []; [[27; 91; 51; 51; 109; 55; 27; 91; 48; 109]]; [[55]]; [[55; 10; 84]];
+            [[27; 91; 51; 52; 59; 49; 109; 84; 27; 91; 48; 109]]; [[84]]].
+Proof.
+  cbv zeta. split; [repeat constructor|]. split; [repeat constructor; discriminate|].
+  eexists. eexists. split; [vm_compute; reflexivity|reflexivity].
+Qed.
+Print Assumptions interleave_example.
